@@ -913,7 +913,7 @@ fn check_split(c: &SplitCase) -> Verdict {
 // generators
 
 fn rows_st() -> impl Strategy<Value = u8> {
-    prop_oneof![6 => 1u8..=3, 1 => Just(20u8), 1 => Just(150u8)]
+    prop_oneof![6 => 1u8..=3, 1 => Just(20u8), 1 => Just(150u8), 2 => Just(0u8)]
 }
 
 fn http_st(stall: bool) -> BoxedStrategy<HttpBeh> {
